@@ -1,8 +1,170 @@
-import Plonk.Model.Prover
+/-
+  C01 — completeness: algebraic ingredients (model level).
+
+  "Every satisfied circuit proves and verifies."  The end-to-end statement needs the quotient
+  identity of a satisfied circuit and the verifier's linearisation; this file delivers the
+  ingredients that concern the commitment scheme and the prover's bookkeeping, all about the
+  model's own functions (`aggregateWitness`, `truncateLen`, `compile`, `commitT`, `blindPoly`,
+  `splitQuotient`; `Plonk/Model/{Kzg,Prover}.lean`):
+
+  * `prover_transcript_prefix` (kept): the prover's transcript is a prefix of the verifier's.
+  * `opening_identity`, `opening_identity_at`: `W·(X − z) = Σ_j v^j (p_j − p_j(z))` for the
+    aggregate witness the prover commits to (hence the batched pairing check holds for honest
+    openings, cf. C20 `aggregate_open_iff`).
+  * `capacity`: for EVERY constraint count `c` the compiler's trimmed key has
+    `nextPow2 (c + 6) + 7 ≥ nextPow2 c + 7` points; `compile_truncated_degree_too_large_iff`: the exact
+    boundary at which compilation reports `TruncatedDegreeTooLarge`; `compile_capacity`: the key
+    recorded by a successful `compile` has `n + 7` points, `n` the size of the proving domain.
+  * `commitments_fit`: with `n + 7` points, `commitT` accepts every polynomial the prover commits:
+    blinded wire / permutation polynomials (≤ n + 2, n + 3 coefficients), the four quotient shares
+    (when the quotient has ≤ 4n + 7 coefficients), aggregate witnesses of polynomials of ≤ n + 8
+    coefficients.
+  * `quotient_shares_eval`: the re-randomised shares evaluate to `t(z)`.
+
+  Nothing here is `_partial`.  Remarks / findings:
+  * `t.length ≤ 4n + 7` is a hypothesis of the quotient-share part of `commitments_fit`: `prove`
+    itself only checks `t.length ≤ 7n` (`circuitUnsatisfied` otherwise); the degree bound of the
+    quotient of a satisfied circuit is not proved here.
+  * Because of the padding `+6` BEFORE rounding to a power of two, a circuit with
+    `2^k − 5 ≤ c ≤ 2^k` constraints is trimmed to `2^(k+1) + 7` points although its domain has size
+    `2^k` (`capacity_boundary_examples`): public parameters sized for `2^k` are rejected with
+    `TruncatedDegreeTooLarge` for such circuits.
+  * `compile` builds its domain with `Domain.new? (size − 1)` (as the Rust code does,
+    `EvaluationDomain::new(size - 1)`), `prove` with `Domain.new? constraints`; they have the same
+    size except for `constraints = 2` (sizes 1 and 2).  Not pursued further here.
+-/
+import Plonk.Proofs.ProverMask
+
 namespace Plonk.Props.C01
-open Plonk
+open Plonk Plonk.ProverMask Polynomial
+
 /-- the prover's transcript (after the public inputs) is a prefix of the verifier's -/
 theorem prover_transcript_prefix :
     (Generated.PROVER_TRANSCRIPT.drop 1) = Generated.VERIFIER_TRANSCRIPT.take (Generated.PROVER_TRANSCRIPT.length - 1) := by
   decide
+
+/-! ## the opening identity -/
+
+/-- **Opening identity.** For the polynomials `p_j`, the aggregation challenge `v` and the point
+    `z`: `W·(X − z) = Σ_j v^j·(p_j − p_j(z))`, `W = aggregateWitness ps z v`, `p_j(z)` computed by
+    the model's `Poly.evaluate` (these are the evaluations the prover puts in the proof). -/
+theorem opening_identity (ps : List Poly) (z v : Nat) :
+    toPoly (aggregateWitness ps z v) * (X - C (toF z))
+      = ∑ j ∈ Finset.range ps.length,
+          C (toF v ^ j) * (toPoly (ps.getD j []) - C (toF (Poly.evaluate (ps.getD j []) z))) :=
+  ProverMask.opening_identity ps z v
+
+example : aggregateWitness [[1, 2, 3], [4, 5]] 2 3 = [23, 3] ∧
+    Poly.evaluate [1, 2, 3] 2 = 17 ∧ Poly.evaluate [4, 5] 2 = 14 := by decide +kernel
+
+/-- the same identity at the trapdoor `x` (what the pairing check decides):
+    `W(x)·(x − z) = Σ_j v^j (p_j(x) − p_j(z))` -/
+theorem opening_identity_at (ps : List Poly) (z v x : Nat) :
+    toF (Poly.evaluate (aggregateWitness ps z v) x) * (toF x - toF z)
+      = ∑ j ∈ Finset.range ps.length,
+          toF v ^ j * (toF (Poly.evaluate (ps.getD j []) x) - toF (Poly.evaluate (ps.getD j []) z)) := by
+  have h := congrArg (Polynomial.eval (toF x)) (ProverMask.opening_identity ps z v)
+  simp only [eval_mul, eval_sub, eval_X, eval_C, eval_finsetSum] at h
+  simpa only [evaluate_spec] using h
+
+example : fmul (Poly.evaluate (aggregateWitness [[1, 2, 3], [4, 5]] 2 3) 5) (fsub 5 2)
+    = fadd (fsub (Poly.evaluate [1, 2, 3] 5) 17) (fmul 3 (fsub (Poly.evaluate [4, 5] 5) 14)) := by
+  decide +kernel
+
+/-! ## capacity of the trimmed commit key -/
+
+/-- **Capacity.** For every constraint count `c` and every SRS length: if trimming succeeds then the
+    trimmed key has exactly `nextPow2 (c + 6) + 7` points, at least `nextPow2 c + 7`. -/
+theorem capacity (c srsLen ckLen : Nat)
+    (h : truncateLen srsLen (nextPow2 (c + Generated.CIRCUIT_SIZE_PADDING)
+          + Generated.ADDED_BLINDING_DEGREE) = .ok ckLen) :
+    ckLen = nextPow2 (c + Generated.CIRCUIT_SIZE_PADDING) + 7 ∧ nextPow2 c + 7 ≤ ckLen :=
+  ProverMask.capacity c srsLen ckLen h
+
+/-- `c = 2^10 − 8`, `2^10 + 8` with exactly fitting parameters; and the boundary: `c = 2^10 − 5`
+    (domain size `2^10`) is rejected by parameters of `2^10 + 7` points -/
+theorem capacity_boundary_examples :
+    truncateLen 1031 (nextPow2 (1016 + Generated.CIRCUIT_SIZE_PADDING)
+        + Generated.ADDED_BLINDING_DEGREE) = .ok 1031 ∧
+    truncateLen 2055 (nextPow2 (1032 + Generated.CIRCUIT_SIZE_PADDING)
+        + Generated.ADDED_BLINDING_DEGREE) = .ok 2055 ∧
+    nextPow2 1019 = 1024 ∧
+    truncateLen 1031 (nextPow2 (1019 + Generated.CIRCUIT_SIZE_PADDING)
+        + Generated.ADDED_BLINDING_DEGREE) = .error .truncatedDegreeTooLarge := by
+  decide +kernel
+
+/-- **Converse boundary.** `compile` reports `TruncatedDegreeTooLarge` exactly when
+    `nextPow2 (constraints + 6) + 6 > srsLen − 1`. -/
+theorem compile_truncated_degree_too_large_iff (srs : SRS) (srsLen : Nat) (label : List Nat)
+    (c : Composer) :
+    compile srs srsLen label c = .error (.compile .truncatedDegreeTooLarge) ↔
+      nextPow2 (c.gates.size + Generated.CIRCUIT_SIZE_PADDING) + Generated.ADDED_BLINDING_DEGREE
+        > srsLen - 1 :=
+  ⟨compile_tooLarge_imp srs srsLen label c, compile_tooLarge_of srs srsLen label c⟩
+
+example : nextPow2 ((default : Composer).gates.size + Generated.CIRCUIT_SIZE_PADDING)
+    + Generated.ADDED_BLINDING_DEGREE > 10 - 1 := by decide +kernel
+
+/-- the key recorded by a successful compilation: trimmed as in `capacity`, trapdoor view of the
+    SRS, and `n + 7` points for the domain (of size `n`) that `prove` works on -/
+theorem compile_capacity (srs : SRS) (srsLen : Nat) (label : List Nat) (c : Composer) (k : PKey)
+    (h : compile srs srsLen label c = .ok k) :
+    truncateLen srsLen (nextPow2 (c.gates.size + Generated.CIRCUIT_SIZE_PADDING)
+        + Generated.ADDED_BLINDING_DEGREE) = .ok k.ckLen ∧
+    k.constraints = c.gates.size ∧ k.x = srs.x ∧ k.g = srs.g ∧
+    ∀ d, Domain.new? k.constraints = some d → d.size = nextPow2 k.constraints ∧ d.size + 7 ≤ k.ckLen := by
+  obtain ⟨h1, h2, h3, h4, _⟩ := compile_ok srs srsLen label c k h
+  refine ⟨h1, h2, h3, h4, fun d hd => ⟨?_, compiled_key_capacity h hd⟩⟩
+  rw [Domain.new?_size_eq hd, nextPow2_eq]
+
+/-- **The prover's commitments fit.** With `n + 7` points (`n = d.size`), the degree guard of
+    `commit` accepts: every blinded polynomial with ≤ 7 blinders (wires: 2, permutation: 3), the four
+    quotient shares of a quotient with ≤ `4n + 7` coefficients, and every aggregate witness of
+    polynomials with ≤ `n + 8` coefficients. -/
+theorem commitments_fit (m : Nat) (d : Domain) (hd : Domain.new? m = some d) (k : PKey)
+    (hcap : d.size + 7 ≤ k.ckLen) :
+    (∀ w bs : List Nat, bs.length ≤ 7 → ∃ g, commitT k (blindPoly d w bs) = .ok g) ∧
+    (∀ (t : Poly) (b12 b13 b14 : Nat) (tl tm th tf : Poly),
+      splitQuotient d.size t b12 b13 b14 = some (tl, tm, th, tf) → t.length ≤ 4 * d.size + 7 →
+      ∃ r, commit4 k tl tm th tf = .ok r) ∧
+    (∀ (ps : List Poly) (z v : Nat), (∀ p ∈ ps, p.length ≤ d.size + 8) →
+      ∃ g, commitT k (aggregateWitness ps z v) = .ok g) :=
+  ProverMask.commitments_fit k d (Domain.new?_WF m d hd) hcap
+
+example : ∃ d, Domain.new? 4 = some d ∧ d.size + 7 ≤ ({ (default : PKey) with ckLen := 11 }).ckLen ∧
+    ∃ tl tm th tf, splitQuotient d.size (List.range 23) 21 22 23 = some (tl, tm, th, tf) ∧
+      (List.range 23).length ≤ 4 * d.size + 7 := by
+  obtain ⟨d, hd⟩ : ∃ d, Domain.new? 4 = some d := Option.isSome_iff_exists.mp (by decide +kernel)
+  have hs : d.size = 4 := by
+    have : (Domain.new? 4).map (·.size) = some 4 := by decide +kernel
+    rw [hd] at this; simpa using this
+  refine ⟨d, hd, by rw [hs], ?_⟩
+  rw [hs]
+  obtain ⟨r, hr⟩ : ∃ r, splitQuotient 4 (List.range 23) 21 22 23 = some r :=
+    Option.isSome_iff_exists.mp (by decide +kernel)
+  obtain ⟨tl, tm, th, tf⟩ := r
+  exact ⟨tl, tm, th, tf, hr, by decide⟩
+
+/-- the degree guard itself: a coefficient list not longer than the key is committed to
+    `[p(x)]g` (trapdoor view) -/
+theorem commit_accepts (k : PKey) (p : Poly) (h : p.length ≤ k.ckLen) :
+    commitT k p = .ok (G1.smul (Poly.evaluate (Poly.trim p) k.x) k.g) :=
+  commitT_ok_of_length h
+
+example : ([1, 2, 3] : Poly).length ≤ ({ (default : PKey) with ckLen := 3 }).ckLen := by decide
+
+/-! ## the quotient shares evaluate to the quotient -/
+
+/-- `t_low(z) + zⁿ·t_mid(z) + z²ⁿ·t_high(z) + z³ⁿ·t_fourth(z) = t(z)`: the re-randomisation of the
+    shares does not change the value the linearisation polynomial uses. -/
+theorem quotient_shares_eval (n : Nat) (hn : 0 < n) (t : Poly) (b12 b13 b14 : Nat)
+    (tl tm th tf : Poly) (h : splitQuotient n t b12 b13 b14 = some (tl, tm, th, tf)) (z : Nat) :
+    toF (Poly.evaluate tl z) + toF z ^ n * toF (Poly.evaluate tm z)
+      + toF z ^ (2 * n) * toF (Poly.evaluate th z) + toF z ^ (3 * n) * toF (Poly.evaluate tf z)
+      = toF (Poly.evaluate t z) :=
+  split_eval hn h z
+
+example : (∃ r, splitQuotient 4 [1, 2, 3, 4, 5, 6, 7, 8, 9, 10, 11, 12, 13, 14] 21 22 23 = some r) ∧
+    0 < 4 := ⟨Option.isSome_iff_exists.mp (by decide +kernel), by decide⟩
+
 end Plonk.Props.C01
